@@ -242,8 +242,8 @@ Definition parse_u8 (s : list N) : option N :=
 
 Fixpoint split_on (sep : N) (s : list N) (cur : list N) : list (list N) :=
   match s with
-  | [] => [rev cur]
-  | c :: r => if c =? sep then rev cur :: split_on sep r [] else split_on sep r (c :: cur)
+  | [] => [rev_append cur []]                       (* rev_append: List.rev is quadratic *)
+  | c :: r => if c =? sep then rev_append cur [] :: split_on sep r [] else split_on sep r (c :: cur)
   end.
 Definition split_slash (s : list N) : list (list N) := split_on 47 s [].
 
